@@ -29,7 +29,35 @@ type BuiltinFnHover struct {
 
 func (*BuiltinFnHover) hover() {}
 
+func hoverRange(hover Hover) (parser.Range, bool) {
+	switch hover := hover.(type) {
+	case *VariableHover:
+		return hover.Range, true
+	case *BuiltinFnHover:
+		return hover.Range, true
+	default:
+		return parser.Range{}, false
+	}
+}
+
 func HoverOn(program parser.Program, position parser.Position) Hover {
+	hover := hoverOn(program, position)
+
+	// Ranges include their end position: when two tokens are adjacent (e.g. "{ $a$b }")
+	// the position between them belongs to both, and the first one would win.
+	// The token that starts at the position has the precedence over the one that ends there
+	if rng, ok := hoverRange(hover); ok && rng.End == position {
+		nextPosition := parser.Position{Line: position.Line, Character: position.Character + 1}
+		nextHover := hoverOn(program, nextPosition)
+		if nextRng, ok := hoverRange(nextHover); ok && nextRng.Start == position {
+			return nextHover
+		}
+	}
+
+	return hover
+}
+
+func hoverOn(program parser.Program, position parser.Position) Hover {
 	for _, varDecl := range program.Vars {
 		hover := hoverOnVar(varDecl, position)
 		if hover != nil {
